@@ -115,7 +115,7 @@ fn gen_range(rng: &mut Rng, out: &mut impl Write, thorough: bool) {
     let k = rng.below(4);
     let szk = rng.below(3);
     let sz = size_of_k(szk);
-    let maxlen = if thorough { 3000 } else { 300 };
+    let maxlen = if thorough { 600 } else { 300 };
     let len = match rng.below(6) {
         0 => 0,
         1 => 1,
@@ -361,7 +361,7 @@ pub fn gen(prop: &str, seed: u64, thorough: bool, out: &mut impl Write) {
                     _ => { let k = rng.below(3); emit(out, &[40, k, frame_of(rng, k), frame_of(rng, k)]); }
                 }
             }
-            let ranges = if thorough { 100_000 } else { 4_000 };
+            let ranges = if thorough { 40_000 } else { 4_000 };
             for _ in 0..ranges {
                 gen_range(rng, out, thorough);
             }
